@@ -136,7 +136,7 @@ class RawPeerScenario(Scenario):
                     t0 = s.now
                     try:
                         if call == "associate":
-                            a = ae.associate("127.0.0.1", scen.PORT, evt_handlers=rec.handlers())
+                            a = ae.associate("127.0.0.1", scen.PORT, evt_handlers=list(rec.handlers()) + (list(self.extra_handlers(ctx, s)) if self.extra_handlers else []))
                             ctx["res"]["assoc"] = a
                             ctx["res"]["established"] = a.is_established
                         elif a is None:
